@@ -574,7 +574,7 @@ fn list(_path: &str, _component: &str) -> Result<()> {
                     ]));
                 }
 
-                table.printstd();
+                table.print_tty(false)?;
             }
         }
         "materials" => {
@@ -599,7 +599,7 @@ fn list(_path: &str, _component: &str) -> Result<()> {
                     ]));
                 }
 
-                table.printstd();
+                table.print_tty(false)?;
             }
         }
         "doodads" => {
@@ -627,7 +627,7 @@ fn list(_path: &str, _component: &str) -> Result<()> {
                     ]));
                 }
 
-                table.printstd();
+                table.print_tty(false)?;
             }
         }
         "portals" => {
@@ -653,7 +653,7 @@ fn list(_path: &str, _component: &str) -> Result<()> {
                     ]));
                 }
 
-                table.printstd();
+                table.print_tty(false)?;
             }
         }
         "lights" => {
@@ -681,7 +681,7 @@ fn list(_path: &str, _component: &str) -> Result<()> {
                     ]));
                 }
 
-                table.printstd();
+                table.print_tty(false)?;
             }
         }
         _ => {
